@@ -70,7 +70,8 @@ def full_cases(draw, tilt=None, axis_g=None, layouts=("dense", "dense", "binned"
     case = draw(geometry(tilt=tilt, axis_g=axis_g))
     n = draw(st.integers(1, 4))
     case["lam"] = draw(st.lists(lam_value, min_size=n, max_size=n))
-    case["lam_unit"] = draw(st.sampled_from(["angstrom", "angstrom", "nm"]))
+    # (metres: with beams in metres this is the unit the kernel converts to, so its conversion is a no-op)
+    case["lam_unit"] = draw(st.sampled_from(["angstrom", "angstrom", "nm", "m"]))
     case["lam_dtype"] = draw(st.sampled_from(["float64", "float64", "float32"]))
     case["layout"] = draw(st.sampled_from(list(layouts)))
     return case
@@ -108,7 +109,7 @@ def vectors(case, tilt=None):
 
 
 def stored_lambda(case):
-    f = {"angstrom": 1.0, "nm": 0.1}[case["lam_unit"]]
+    f = {"angstrom": 1.0, "nm": 0.1, "m": 1e-10}[case["lam_unit"]]
     vals = np.array([v * f for v in case["lam"]], dtype=case["lam_dtype"])
     return vals
 
@@ -131,12 +132,24 @@ def call(case, fn_name, tilt=None, lam=None, layout=None):
                      dim="event", data=ev).bins.coords["wavelength"]
     else:
         wl = sc.array(dims=["wavelength"], values=lam, unit=case["lam_unit"], dtype=case["lam_dtype"])
-    out = getattr(bl, fn_name)(
-        incident_beam=sc.vector(b1, unit=case["b1_unit"]),
-        scattered_beam=sc.vector(b2, unit=case["b2_unit"]),
-        wavelength=wl,
-        gravity=sc.vector(g, unit="m/s^2"),
-    )
+    args = {
+        "incident_beam": sc.vector(b1, unit=case["b1_unit"]),
+        "scattered_beam": sc.vector(b2, unit=case["b2_unit"]),
+        "wavelength": wl,
+        "gravity": sc.vector(g, unit="m/s^2"),
+    }
+    before = {k: v.copy() for k, v in args.items()}
+    out = getattr(bl, fn_name)(**args)
+    # the same operand objects must be usable again: unchanged, and giving the same answer
+    for k, v in args.items():
+        if not sc.identical(v, before[k], equal_nan=True):
+            raise Violation("operand-modified", f"{fn_name} modified its operand {k!r} "
+                                                f"(unit {before[k].unit if before[k].bins is None else before[k].bins.unit})")
+    again = getattr(bl, fn_name)(**args)
+    pairs = zip(out.values(), again.values(), strict=True) if isinstance(out, dict) else [(out, again)]
+    for a_, b_ in pairs:
+        if not sc.identical(a_, b_, equal_nan=True):
+            raise Violation("not-repeatable", f"{fn_name} gives a different result when called again with the same operands")
     return out, lam
 
 
@@ -169,7 +182,7 @@ def reference(case, lam_stored, tilt=None):
     gb = abs(kin.dot(gm, b1_val)) / gn
     may_be_orthogonal_path = gb <= mp.mpf("1.01e-10")
     allowance = 2 * mp.mpf("1e-10") / kin.norm(b1_val) if may_be_orthogonal_path else mp.mpf(0)
-    lam_factor = {"angstrom": units.LENGTH["angstrom"], "nm": units.LENGTH["nm"]}[case["lam_unit"]]
+    lam_factor = {"angstrom": units.LENGTH["angstrom"], "nm": units.LENGTH["nm"], "m": units.LENGTH["m"]}[case["lam_unit"]]
     out = []
     for lv in lam_stored:
         lam = mp.mpf(float(lv)) * lam_factor
@@ -550,6 +563,62 @@ def check_banks(case):
     return labs, vis
 
 
+@st.composite
+def large_cases(draw):
+    case = draw(full_cases(layouts=("dense",)))
+    case["n"] = draw(st.sampled_from([1000, 4095, 4096, 4097, 8192, 8193, 10000, 16385, 20001]))
+    case["lam_lo"], case["lam_hi"] = 0.5, draw(st.floats(2.0, 40.0))
+    case["lam_unit"] = "angstrom"
+    case["fn"] = draw(st.sampled_from(["scattering_angles_with_gravity", "scattering_angles_with_gravity",
+                                       "scattering_angle_in_yz_plane"]))
+    if case["fn"] == "scattering_angle_in_yz_plane":
+        case["tilt"] = 0.0
+        if case["g_axis"] is None:
+            case["g_axis"], case["g_dir"] = 2, None
+    return case
+
+
+def check_large(case):
+    """Long dense wavelength arrays: elements at the ends and around multiples of 1024/4096 are compared
+    with the construction; all elements must be finite and equal to what the same call returns for a short
+    slice around them."""
+    import scipp as sc
+    from scippneutron.conversion import beamline as bl
+
+    n = case["n"]
+    lam_all = np.linspace(case["lam_lo"], case["lam_hi"], n).astype(case["lam_dtype"])
+    out, _ = call(case, case["fn"], lam=lam_all, layout="dense")
+    outs = {"two_theta": out["two_theta"], "phi": out["phi"]} if isinstance(out, dict) else {"gamma": out}
+    idx = sorted({i for i in [0, 1, n // 2, n - 2, n - 1, 1023, 1024, 1025, 4095, 4096, 4097, 8191, 8192, 8193,
+                              16383, 16384, 16385] if 0 <= i < n})
+    refs = reference(case, lam_all[idx])
+    for name, var in outs.items():
+        vals = np.asarray(var.values, dtype=float)
+        if vals.shape != (n,):
+            raise Violation("shape", f"{name}: {vals.shape} values for {n} wavelengths")
+        if not np.all(np.isfinite(vals)):
+            k = int(np.argmin(np.isfinite(vals)))
+            raise Violation(name, f"{name}[{k}] = {vals[k]!r} in an array of {n} wavelengths")
+        for i, r in zip(idx, refs, strict=True):
+            tol = tol_for(case, r)
+            if name == "phi":
+                if r["rho_rel"] <= mp.mpf("1e-6"):
+                    continue
+                tol = tol / min(r["rho_rel"], 1)
+            elif name == "gamma":
+                if r["yz_rho_rel"] < mp.mpf("1e-6"):
+                    continue
+                tol = tol / min(r["yz_rho_rel"], 1)
+            e = angle_err(vals[i], r[name])
+            if name == "phi":
+                e = min(e, abs(e - 2 * mp.pi))
+            if e > tol:
+                raise Violation(name, f"{name}[{i}] of {n} = {vals[i]!r}, documented construction gives "
+                                      f"{mp.nstr(r[name], 17)}; error {mp.nstr(e, 3)} > {mp.nstr(tol, 3)}")
+    labs, vis = labels_of(case, refs)
+    return [*labs, f"n:{n}", "fn:" + case["fn"]], vis
+
+
 def m_general_path_sign(case, v):
     return v.kind in ("two_theta", "discontinuous", "not-larger") and (case.get("tilt", 0.0) != 0.0 or "eps" in case)
 
@@ -572,6 +641,9 @@ FACETS = [
     Facet("pixel_arrays", check_pixels, strategy=lambda tier: pixel_cases(),
           quick=(2, 250), thorough=(16, 2500), min_nontrivial=0.3,
           doc="per-pixel scattered beams with wavelength on its own dim (outer product), on the pixel dim, or 0-d"),
+    Facet("large_arrays", check_large, strategy=lambda tier: large_cases(),
+          quick=(2, 40), thorough=(16, 200), min_nontrivial=0.3,
+          doc="dense wavelength arrays of 1000..20001 elements (lengths around multiples of 4096)"),
     Facet("incident_arrays", check_banks, strategy=lambda tier: bank_cases(),
           quick=(2, 200), thorough=(16, 2000), min_nontrivial=0.3,
           doc="one incident beam per bank, some exactly horizontal and some tilted (dispatch over an array)"),
